@@ -44,9 +44,15 @@ def removeChar (s : Str) (c : Char) : Str := s.filter (fun d => d != c)
 /-- outcome of `toDouble` (:227): the value is C17's business -/
 def toDoubleClass (dec sci : Char) (s : Str) : R Unit :=
   if Number.isDecimalNumber dec sci s then .ok () else .error .bpp
-/-- outcome of `toInt` (:218); `istringstream >> int` clamps on overflow (no UB) -/
+/-- outcome of `toInt` (:218-256, after the repair "fix: TextTools::toInt ignored the exponent it
+accepts"): the library's exception when the text is not an integer numeral or its value does not fit
+an `int`.  The conversion reads `s[i]` for `i ≤ size` only (`s[size]` is the NUL) and computes in a
+`long long` that saturates at 2^31 + 1 (the exponent at 11): no index out of range, no overflow;
+C17's `Number.toInt` is that computation. -/
 def toIntClass (sci : Char) (s : Str) : R Unit :=
-  if Number.isDecimalInteger sci s then .ok () else .error .bpp
+  match Number.toInt sci s with
+  | some _ => .ok ()
+  | none => .error .bpp
 
 /-! ## fixed width (TextTools.cpp:236-269) -/
 
